@@ -1,5 +1,5 @@
 """C16 — delete predicates match exactly the series they describe.  Spec: Predicate.tla (contract EvalPred; implementation
-layer KeyOf / PopTag / memoising three-valued update = MatcherModel).  TLC enumerates (series, predicate) pairs — the state
+layer KeyOf / PopTag / memoising three-valued update = MatcherModel; SkipName = the repair of F36).  TLC enumerates (series, predicate) pairs — the state
 is the case, `want` is the oracle — in escape-focused configs (every string of length <= 2 over {a, b, ' ', ',', '='} as
 measurement / tag key / tag value, leaf predicates over the series' own strings and foreign ones) and connective-focused
 configs (AND/OR trees of depth <= 2).  Binding: replay of every pair on the real code: datatypes.Predicate ->
@@ -93,6 +93,9 @@ def run(ctx):
         per_cfg[name] = per_cfg.get(name, 0) + n
     if not cases:
         raise vlib.Inconclusive('no cases generated')
+    # the matcher as it was found (bare measurement name popped like a tag pair, F36) violates the contract on the model
+    lead = ctx.tlc('Predicate', 'Predicate.LeadAsFound.cfg', workers=1, timeout=1500, heap='2g', tag='lead-asfound', count=False)
+    ctx.extra_cov['as_found_matcher_model'] = ('violates ' + lead.violated) if lead.violated else ('no violation' if lead.ok else 'error')
     binary = ctx.go_build('pred')
     # 1. every pair through Matches, under `nconc` concretisations of the two letters (escape symbols are fixed)
     nconc = 1 if ctx.tier == 'quick' else 3
